@@ -48,7 +48,9 @@ def check(spec, mode, text, payload, salt, ctx=None):
     if any(rule == "OverlappingFieldsCanBeMerged" for rule, _ in probs):
         vios.append(("C05/validated-but-ambiguous-response-key", "reference merge rule rejects: %r" % (probs[:2],)))
     ops = [d for d in tree["definitions"] if d["__kind__"] == "OperationDefinition"]
-    for op in ops[:2]:
+    payloads = payload if isinstance(payload, list) else [payload, payload]
+    for oi, op in enumerate(ops[:2]):
+        payload = payloads[oi]
         opname = op["name"]["value"] if op["name"] else None
         if op["operation"] == "subscription":
             continue
@@ -111,7 +113,7 @@ def cases(draw):
     out = []
     for text, labels in docs:
         p = R.ref_parse(text, "doc", False, False)
-        payload = draw(VC.payload_for(eff, p[1])) if p[0] == "TREE" else {}
+        payload = [draw(VC.payload_for(eff, p[1], op=i)) for i in range(2)] if p[0] == "TREE" else {}
         out.append({"text": text, "labels": labels, "payload": payload, "salt": draw(st.integers(0, 9999))})
     return {"spec": spec, "mode": mode, "docs": out}
 
